@@ -100,65 +100,120 @@ Proof.
     cbn [app]; rewrite <- ?app_assoc; reflexivity.
 Qed.
 
-Lemma encode_msg_ser m : is_handshake m = false -> encode_msg m = ser_msg m.
+Lemma encode_msg_ser m : encode_msg m = ser_msg m.
+Proof. rewrite <- encode_flushed_ser. destruct m; reflexivity. Qed.
+
+Lemma zfirstn_app_more {A} (a b : list A) k :
+  0 <= k -> zfirstn (zlen a + k) (a ++ b) = a ++ zfirstn k b.
 Proof.
-  intros H; rewrite <- encode_flushed_ser; destruct m; try reflexivity; discriminate.
+  intros Hk. unfold zfirstn, zlen. rewrite Z2Nat.inj_add, Nat2Z.id by lia.
+  apply firstn_app_2.
+Qed.
+
+Lemma zskipn_app_more {A} (a b : list A) k :
+  0 <= k -> zskipn (zlen a + k) (a ++ b) = zskipn k b.
+Proof.
+  intros Hk. unfold zskipn, zlen. rewrite Z2Nat.inj_add, Nat2Z.id by lia.
+  rewrite skipn_app, skipn_all2 by lia. cbn [app]. f_equal. lia.
 Qed.
 
 (* ================================================================== *)
-(* B. reading an input of at most 4096 bytes: the bufio buffer holds either nothing
-      (before the first read) or everything that is left *)
-Definition ideal (r : rd) : Prop :=
-  (rd_avail r = 0 /\ zlen (rd_rest r) <= BUFSZ) \/ rd_avail r = zlen (rd_rest r).
+(* B. reading: bufio.Reader + io.ReadFull deliver exactly the next n bytes, whatever the
+      buffer happens to hold *)
+Definition wfrd (r : rd) : Prop := 0 <= rd_avail r <= zlen (rd_rest r).
 
-Lemma rd_read_ideal n r :
-  ideal r -> 0 < n <= zlen (rd_rest r) ->
-  exists r', rd_read n r = (Some (zfirstn n (rd_rest r)), r') /\
-             rd_rest r' = zskipn n (rd_rest r) /\ ideal r'.
+(* one Read on a non-exhausted reader: at least one byte, a prefix of what is left *)
+Lemma rd_read_some n r :
+  wfrd r -> 0 < n -> rd_rest r <> [] ->
+  exists bs r', rd_read n r = (Some bs, r') /\ 0 < zlen bs <= n /\
+                rd_rest r = bs ++ rd_rest r' /\ wfrd r'.
 Proof.
-  intros Hi Hn. unfold rd_read.
+  intros [W0 W1] Hn Hne. unfold rd_read.
   destruct (n <=? 0) eqn:E0; [lia|].
-  pose proof (zlen_zskipn n (rd_rest r) ltac:(lia)) as Hsk.
+  destruct (rd_rest r) as [|b l] eqn:El; [contradiction|]. clear Hne.
+  assert (Hlen : 1 <= zlen (b :: l)) by (rewrite zlen_cons; pose proof (zlen_nonneg l); lia).
+  assert (Hgen : forall k a, 1 <= k <= n -> k <= a -> a <= zlen (b :: l) ->
+            exists bs r', (Some (zfirstn k (b :: l)), mkRd (a - k) (zskipn k (b :: l))) = (Some bs, r') /\
+              0 < zlen bs <= n /\ b :: l = bs ++ rd_rest r' /\ wfrd r').
+  { intros k a Hk Hka Ha. eexists _, _. split; [reflexivity|]. cbn [rd_rest].
+    rewrite zlen_zfirstn by lia. split; [lia|]. split; [symmetry; apply zfirstn_skipn|].
+    unfold wfrd; cbn [rd_avail rd_rest]. rewrite zlen_zskipn by lia. lia. }
   destruct (rd_avail r <=? 0) eqn:Ea.
-  - assert (Ha : rd_avail r = 0 /\ zlen (rd_rest r) <= BUFSZ).
-    { destruct Hi as [Hi|Hi]; [exact Hi|]. lia. }
-    destruct Ha as [Ha Hle].
-    destruct (rd_rest r) as [|b l] eqn:El; [unfold zlen in Hn; cbn [length] in Hn; lia|].
-    destruct (BUFSZ <=? n) eqn:Eb.
-    + replace (Z.min n (zlen (b :: l))) with n by lia.
-      eexists; split; [reflexivity|]. cbn [rd_rest rd_avail]. split; [reflexivity|].
-      right. cbn [rd_rest rd_avail]. lia.
-    + replace (Z.min BUFSZ (zlen (b :: l))) with (zlen (b :: l)) by lia.
-      replace (Z.min n (zlen (b :: l))) with n by lia.
-      eexists; split; [reflexivity|]. cbn [rd_rest rd_avail]. split; [reflexivity|].
-      right. cbn [rd_rest rd_avail]. lia.
-  - assert (Ha : rd_avail r = zlen (rd_rest r)) by (destruct Hi as [Hi|Hi]; lia).
-    replace (Z.min n (rd_avail r)) with n by lia.
-    eexists; split; [reflexivity|]. cbn [rd_rest rd_avail]. split; [reflexivity|].
-    right. cbn [rd_rest rd_avail]. lia.
+  - destruct (BUFSZ <=? n) eqn:Eb.
+    + pose proof (Hgen (Z.min n (zlen (b :: l))) (Z.min n (zlen (b :: l))) ltac:(lia) ltac:(lia) ltac:(lia)) as H.
+      rewrite Z.sub_diag in H. exact H.
+    + apply Hgen; unfold BUFSZ in *; lia.
+  - apply Hgen; lia.
 Qed.
 
-Lemma rd_byte_ideal r b l :
-  ideal r -> rd_rest r = b :: l ->
-  exists r', rd_byte r = (Some b, r') /\ rd_rest r' = l /\ ideal r'.
+Lemma rd_read_none n r : wfrd r -> 0 < n -> rd_rest r = [] -> fst (rd_read n r) = None.
 Proof.
-  intros Hi El. unfold rd_byte. rewrite El.
-  assert (Hl : zlen (b :: l) = 1 + zlen l) by apply zlen_cons.
-  pose proof (zlen_nonneg l).
-  destruct (rd_avail r <=? 0) eqn:Ea.
-  - assert (Ha : rd_avail r = 0 /\ zlen (rd_rest r) <= BUFSZ).
-    { destruct Hi as [Hi|Hi]; [exact Hi|]. rewrite El in Hi. lia. }
-    destruct Ha as [_ Hle]. rewrite El in Hle.
-    eexists; split; [reflexivity|]. cbn [rd_rest rd_avail]. split; [reflexivity|].
-    right. cbn [rd_rest rd_avail]. lia.
-  - assert (Ha : rd_avail r = zlen (b :: l)) by (destruct Hi as [Hi|Hi]; rewrite El in Hi; lia).
-    eexists; split; [reflexivity|]. cbn [rd_rest rd_avail]. split; [reflexivity|].
-    right. cbn [rd_rest rd_avail]. lia.
+  intros [W0 W1] Hn He. unfold rd_read. rewrite He in *. unfold zlen in W1; cbn [length] in W1.
+  destruct (n <=? 0) eqn:E0; [lia|]. destruct (rd_avail r <=? 0) eqn:Ea; [reflexivity|lia].
 Qed.
 
-(* decoder positioned on [l], no error so far, bufio reader in an ideal state *)
+(* io.ReadFull: the fuel always suffices *)
+Lemma rd_full_loop_ok fuel : forall need r,
+  wfrd r -> 0 <= need <= zlen (rd_rest r) -> need <= Z.of_nat fuel ->
+  exists r', rd_full_loop fuel need r = (Some (zfirstn need (rd_rest r)), r') /\
+             rd_rest r' = zskipn need (rd_rest r) /\ wfrd r'.
+Proof.
+  induction fuel as [|f IH]; intros need r W Hn Hf.
+  - assert (need = 0) by lia. subst need. exists r. cbn [rd_full_loop Z.leb Z.compare].
+    split; [reflexivity|split; [reflexivity|exact W]].
+  - cbn [rd_full_loop]. destruct (need <=? 0) eqn:E0.
+    + assert (need = 0) by lia. subst need. exists r. split; [reflexivity|split; [reflexivity|exact W]].
+    + assert (Hne : rd_rest r <> []).
+      { intros He. rewrite He in Hn. unfold zlen in Hn; cbn [length] in Hn. lia. }
+      destruct (rd_read_some need r W ltac:(lia) Hne) as (bs & r1 & E & Hb & Hr & W1).
+      rewrite E. rewrite Hr in Hn. rewrite zlen_app in Hn.
+      destruct (IH (need - zlen bs) r1 W1 ltac:(lia) ltac:(lia)) as (r2 & E2 & Hr2 & W2).
+      rewrite E2. exists r2. rewrite Hr.
+      pose proof (zfirstn_app_more bs (rd_rest r1) (need - zlen bs) ltac:(lia)) as F1.
+      pose proof (zskipn_app_more bs (rd_rest r1) (need - zlen bs) ltac:(lia)) as F2.
+      replace (zlen bs + (need - zlen bs)) with need in F1, F2 by lia.
+      rewrite F1, F2. split; [reflexivity|split; assumption].
+Qed.
+
+Lemma rd_full_ok n r :
+  wfrd r -> 0 <= n <= zlen (rd_rest r) ->
+  exists r', rd_full n r = (Some (zfirstn n (rd_rest r)), r') /\
+             rd_rest r' = zskipn n (rd_rest r) /\ wfrd r'.
+Proof. intros W Hn. apply rd_full_loop_ok; try assumption. lia. Qed.
+
+(* ... and when fewer than n bytes are left the outcome is the error, not "out of fuel" *)
+Lemma rd_full_loop_short fuel : forall need r,
+  wfrd r -> zlen (rd_rest r) < need -> need <= Z.of_nat fuel -> fst (rd_full_loop fuel need r) = None.
+Proof.
+  induction fuel as [|f IH]; intros need r W Hn Hf; pose proof (zlen_nonneg (rd_rest r)).
+  - lia.
+  - cbn [rd_full_loop]. destruct (need <=? 0) eqn:E0; [lia|].
+    destruct (rd_rest r) as [|b l] eqn:El.
+    + pose proof (rd_read_none need r W ltac:(lia) El) as Hnone.
+      destruct (rd_read need r) as [[bs|] r1]; [discriminate|reflexivity].
+    + assert (Hne : rd_rest r <> []) by (rewrite El; discriminate).
+      destruct (rd_read_some need r W ltac:(lia) Hne) as (bs & r1 & E & Hb & Hr & W1).
+      rewrite E. rewrite El in Hr. rewrite Hr, zlen_app in Hn.
+      specialize (IH (need - zlen bs) r1 W1 ltac:(lia) ltac:(lia)).
+      destruct (rd_full_loop f (need - zlen bs) r1) as [[t|] r2]; [discriminate|reflexivity].
+Qed.
+
+Lemma rd_full_short n r : wfrd r -> zlen (rd_rest r) < n -> fst (rd_full n r) = None.
+Proof. intros W Hn. pose proof (zlen_nonneg (rd_rest r)). apply rd_full_loop_short; try assumption. lia. Qed.
+
+Lemma rd_byte_some r b l :
+  wfrd r -> rd_rest r = b :: l ->
+  exists r', rd_byte r = (Some b, r') /\ rd_rest r' = l /\ wfrd r'.
+Proof.
+  intros [W0 W1] El. unfold rd_byte. rewrite El in *. rewrite zlen_cons in W1.
+  pose proof (zlen_nonneg l).
+  destruct (rd_avail r <=? 0) eqn:Ea; eexists; (split; [reflexivity|]); cbn [rd_rest];
+    (split; [reflexivity|]); unfold wfrd; cbn [rd_avail rd_rest]; rewrite ?zlen_cons; unfold BUFSZ; lia.
+Qed.
+
+(* decoder positioned on [l], no error so far *)
 Definition at_ (d : dec) (l : bytes) : Prop :=
-  d_err d = false /\ ideal (d_rd d) /\ rd_rest (d_rd d) = l.
+  d_err d = false /\ wfrd (d_rd d) /\ rd_rest (d_rd d) = l.
 
 Lemma u16_range v : 0 <= v < 65536 -> le16 (u16_bytes v) = v.
 Proof.
@@ -174,8 +229,8 @@ Lemma dec_u8_ok d v tail :
   exists d', dec_u8 d = (v, d') /\ at_ d' tail.
 Proof.
   intros Hv (He & Hi & Hr). unfold dec_u8. rewrite He.
-  destruct (rd_byte_ideal _ _ _ Hi Hr) as (r' & E & Hr' & Hi').
-  rewrite E, (u8_range v Hv). eexists; split; [reflexivity|]. repeat split; assumption.
+  destruct (rd_byte_some _ _ _ Hi Hr) as (r' & E & Hr' & Hi').
+  rewrite E, (u8_range v Hv). eexists; split; [reflexivity|]. split; [reflexivity|split; [exact Hi'|exact Hr']].
 Qed.
 
 Lemma dec_u16_ok d v tail :
@@ -183,17 +238,14 @@ Lemma dec_u16_ok d v tail :
   exists d', dec_u16 d = (v, d') /\ at_ d' tail.
 Proof.
   intros Hv (He & Hi & Hr). unfold dec_u16. rewrite He.
-  assert (Hn : 0 < 2 <= zlen (rd_rest (d_rd d))).
+  assert (Hn : 0 <= 2 <= zlen (rd_rest (d_rd d))).
   { rewrite Hr. unfold u16_bytes. cbn [app]. rewrite !zlen_cons. pose proof (zlen_nonneg tail). lia. }
-  destruct (rd_read_ideal 2 _ Hi Hn) as (r' & E & Hr' & Hi').
+  destruct (rd_full_ok 2 _ Hi Hn) as (r' & E & Hr' & Hi').
   rewrite E, Hr. change 2 with (zlen (u16_bytes v)) at 1.
   rewrite zfirstn_app_exact, (u16_range v Hv).
-  eexists; split; [reflexivity|]. repeat split; try assumption.
+  eexists; split; [reflexivity|]. repeat split; try apply Hi'.
   cbn [d_rd]. rewrite Hr', Hr. change 2 with (zlen (u16_bytes v)). apply zskipn_app_exact.
 Qed.
-
-Lemma zeros_0 : zeros 0 = [].
-Proof. reflexivity. Qed.
 
 Lemma dec_data_ok d p tail :
   zlen p < 65536 -> at_ d (ser_data p ++ tail) ->
@@ -203,19 +255,15 @@ Proof.
   unfold ser_data in Hat. rewrite <- app_assoc in Hat.
   destruct (dec_u16_ok d (zlen p) (p ++ tail) ltac:(lia) Hat) as (d1 & E1 & (He1 & Hi1 & Hr1)).
   unfold dec_data. destruct Hat as (He & _ & _). rewrite He, E1.
-  destruct (Z.eq_dec (zlen p) 0) as [Hz|Hz].
-  - assert (p = []) by (destruct p; [reflexivity|rewrite zlen_cons in Hz; pose proof (zlen_nonneg p); lia]).
-    subst p. rewrite zlen_nil. unfold rd_read. cbn [Z.leb Z.compare app zlen length Z.of_nat].
-    rewrite He1. eexists; split; [reflexivity|]. repeat split; assumption.
-  - assert (Hn : 0 < zlen p <= zlen (rd_rest (d_rd d1))).
-    { rewrite Hr1, zlen_app. pose proof (zlen_nonneg tail). lia. }
-    destruct (rd_read_ideal _ _ Hi1 Hn) as (r' & E & Hr' & Hi').
-    rewrite E, Hr1, zfirstn_app_exact, Z.sub_diag, zeros_0, app_nil_r, He1.
-    eexists; split; [reflexivity|]. repeat split; try assumption.
-    cbn [d_rd]. rewrite Hr', Hr1. apply zskipn_app_exact.
+  assert (Hn : 0 <= zlen p <= zlen (rd_rest (d_rd d1))).
+  { rewrite Hr1, zlen_app. pose proof (zlen_nonneg tail). lia. }
+  destruct (rd_full_ok _ _ Hi1 Hn) as (r' & E & Hr' & Hi').
+  rewrite E, Hr1, zfirstn_app_exact, He1.
+  eexists; split; [reflexivity|]. repeat split; try apply Hi'.
+  cbn [d_rd]. rewrite Hr', Hr1. apply zskipn_app_exact.
 Qed.
 
-(* well-formed (non-nil) addresses *)
+(* addresses with field lengths that fit their uint16 length prefix *)
 Definition wf_addr (a : addr) : Prop :=
   match a with
   | ATcp ip port | AUdp ip port => zlen ip < 65536 /\ 0 <= port < 65536
@@ -262,14 +310,15 @@ Definition wf_msg (m : msg) : Prop :=
   | MPing => True
   end.
 
-Lemma at_new data : zlen data <= BUFSZ -> at_ (new_dec data) data.
-Proof. intros H. repeat split. left. cbn [new_dec d_rd rd_avail rd_rest]. auto. Qed.
-
-(* decoding the field-by-field serialisation of a message that fits the buffer *)
-Lemma decode_ser m :
-  wf_msg m -> zlen (ser_msg m) <= BUFSZ -> decode_msg (msg_type m) (ser_msg m) = Some m.
+Lemma at_new data : at_ (new_dec data) data.
 Proof.
-  intros Hwf Hlen. pose proof (at_new _ Hlen) as Hat.
+  repeat split. cbn [new_dec d_rd rd_avail]. lia. cbn [new_dec d_rd rd_avail rd_rest]. apply zlen_nonneg.
+Qed.
+
+(* decoding the field-by-field serialisation *)
+Lemma decode_ser m : wf_msg m -> decode_msg (msg_type m) (ser_msg m) = Some m.
+Proof.
+  intros Hwf. pose proof (at_new (ser_msg m)) as Hat.
   destruct m as [l r|l r p|pv v s c t|addrs|l r| |l r p]; cbn [msg_type ser_msg wf_msg] in *;
     unfold decode_msg; cbn [Z.eqb].
   - destruct Hwf as [Hl Hr].
@@ -306,18 +355,70 @@ Proof.
     destruct (dec_data_ok _ p _ Hp H2) as (d3 & E3 & H3). rewrite E3. reflexivity.
 Qed.
 
-(* the round trip through the code as it is *)
-Lemma codec_roundtrip m :
-  wf_msg m -> is_handshake m = false -> zlen (encode_msg m) <= BUFSZ -> transport m = Some m.
+(* the value domain of a message: TCP/UDP addresses, ports and protocol version that fit
+   a uint16, at most 255 announced addresses.  No length appears here. *)
+Definition vd_addr (a : addr) : Prop :=
+  match a with
+  | ATcp _ port | AUdp _ port => 0 <= port < 65536
+  | ANil => False
+  end.
+Definition vd_msg (m : msg) : Prop :=
+  match m with
+  | MHello l r | MEof l r | MData l r _ | MUdp l r _ => vd_addr l /\ vd_addr r
+  | MHandshake pv _ _ _ _ => 0 <= pv < 65536
+  | MHsResp addrs => Forall vd_addr addrs /\ zlen addrs < 256
+  | MPing => True
+  end.
+
+Lemma zlen_u16 v : zlen (u16_bytes v) = 2.
+Proof. reflexivity. Qed.
+Lemma zlen_ser_data p : zlen (ser_data p) = 2 + zlen p.
+Proof. unfold ser_data. now rewrite zlen_app, zlen_u16. Qed.
+Lemma zlen_ser_addr a :
+  zlen (ser_addr a) = match a with ATcp ip _ | AUdp ip _ => 5 + zlen ip | ANil => 4 end.
 Proof.
-  intros Hwf Hh Hlen. unfold transport. rewrite (encode_msg_ser m Hh) in *.
-  apply decode_ser; assumption.
+  destruct a; cbn [ser_addr]; rewrite ?zlen_app, ?zlen_ser_data, ?zlen_u16, ?zlen_cons, ?zlen_nil; lia.
 Qed.
 
-(* a handshake whose sender flushes is decoded correctly *)
-Lemma handshake_flushed_roundtrip m :
-  wf_msg m -> zlen (encode_flushed m) <= BUFSZ -> decode_msg (msg_type m) (encode_flushed m) = Some m.
-Proof. intros Hwf Hlen. rewrite encode_flushed_ser in *. apply decode_ser; assumption. Qed.
+Lemma vd_wf_addr a n : vd_addr a -> zlen (ser_addr a) <= n -> n < 65536 -> wf_addr a.
+Proof.
+  intros Hv Hl Hn. rewrite zlen_ser_addr in Hl. destruct a; cbn [vd_addr wf_addr] in *; try contradiction; lia.
+Qed.
+
+Lemma vd_wf_addrs l : Forall vd_addr l -> zlen (ser_addrs l) < 65536 -> Forall wf_addr l.
+Proof.
+  induction l as [|a l IH]; intros Hv Hl; [constructor|].
+  inversion Hv as [|? ? Ha Hr]; subst. cbn [ser_addrs flat_map] in Hl. rewrite zlen_app in Hl.
+  fold (ser_addrs l) in Hl. pose proof (zlen_nonneg (ser_addrs l)). pose proof (zlen_nonneg (ser_addr a)).
+  constructor; [apply (vd_wf_addr a (zlen (ser_addr a))); (assumption || lia)|apply IH; (assumption || lia)].
+Qed.
+
+(* below the uint16 frame length every field length fits its own uint16 prefix *)
+Lemma vd_wf_msg m : vd_msg m -> zlen (ser_msg m) < 65536 -> wf_msg m.
+Proof.
+  intros Hv Hl. destruct m as [l r|l r p|pv v s c t|addrs|l r| |l r p]; cbn [vd_msg wf_msg ser_msg] in *;
+    rewrite ?zlen_app, ?zlen_ser_data, ?zlen_u16, ?zlen_cons, ?zlen_nil in Hl.
+  - pose proof (zlen_nonneg (ser_addr l)). pose proof (zlen_nonneg (ser_addr r)). destruct Hv.
+    split; [apply (vd_wf_addr l (zlen (ser_addr l)))|apply (vd_wf_addr r (zlen (ser_addr r)))]; (assumption || lia).
+  - pose proof (zlen_nonneg (ser_addr l)). pose proof (zlen_nonneg (ser_addr r)). pose proof (zlen_nonneg p). destruct Hv.
+    split; [apply (vd_wf_addr l (zlen (ser_addr l)))|split; [apply (vd_wf_addr r (zlen (ser_addr r)))|]]; (assumption || lia).
+  - pose proof (zlen_nonneg v). pose proof (zlen_nonneg s). pose proof (zlen_nonneg c). pose proof (zlen_nonneg t). lia.
+  - destruct Hv as [Hv Hn]. pose proof (zlen_nonneg (ser_addrs addrs)).
+    split; [apply vd_wf_addrs; (assumption || lia)|exact Hn].
+  - pose proof (zlen_nonneg (ser_addr l)). pose proof (zlen_nonneg (ser_addr r)). destruct Hv.
+    split; [apply (vd_wf_addr l (zlen (ser_addr l)))|apply (vd_wf_addr r (zlen (ser_addr r)))]; (assumption || lia).
+  - exact I.
+  - pose proof (zlen_nonneg (ser_addr l)). pose proof (zlen_nonneg (ser_addr r)). pose proof (zlen_nonneg p). destruct Hv.
+    split; [apply (vd_wf_addr l (zlen (ser_addr l)))|split; [apply (vd_wf_addr r (zlen (ser_addr r)))|]]; (assumption || lia).
+Qed.
+
+(* the round trip: every message type, every encoding whose length fits the uint16 frame
+   length field of conn2.send *)
+Lemma codec_roundtrip m : vd_msg m -> zlen (encode_msg m) < 65536 -> transport m = Some m.
+Proof.
+  intros Hv Hlen. unfold transport. rewrite encode_msg_ser in *.
+  apply decode_ser, vd_wf_msg; assumption.
+Qed.
 
 (* ================================================================== *)
 (* C. the session machine *)
@@ -643,16 +744,6 @@ Proof.
   rewrite step_read_park, H3, H2, H1, <- app_assoc. reflexivity.
 Qed.
 
-Lemma skip_buf_upd cs c' n l r cl c :
-  vc_buf (nth c (upd cs c' (mkVc l r (zskipn n (vc_buf (nth c' cs dummy_vc))) cl)) dummy_vc) =
-  if Nat.eqb c' c then zskipn n (vc_buf (nth c cs dummy_vc)) else vc_buf (nth c cs dummy_vc).
-Proof.
-  rewrite nth_upd. destruct (Nat.eqb c' c) eqn:E; cbn [andb]; [|reflexivity].
-  apply Nat.eqb_eq in E; subst c'. destruct (Nat.ltb c (length cs)) eqn:L; [reflexivity|].
-  apply Nat.ltb_ge in L. rewrite (nth_overflow cs dummy_vc L). cbn [vc_buf dummy_vc].
-  unfold zskipn. now rewrite skipn_nil.
-Qed.
-
 Lemma step_conserves s a c :
   let '(s', r, _) := step wire s a in
   vc_buf (conn_at s c) ++ step_recv s a c = step_read a r c ++ vc_buf (conn_at s' c).
@@ -667,14 +758,9 @@ Proof.
     + destruct (vc_closed (conn_at s c')) eqn:Ec.
       * destruct (vc_read s c' n) as [s1 r1]. destruct (recv_msg wire s1 m) as [[[s' r] fs] sg]. exact Himm.
       * clear Himm. pose proof (recv_msg_buf s m c) as H.
-        destruct (recv_msg wire s m) as [[[s' r] fs] sg].
-        assert (Hq : forall x : bool, step_read (APark c' n m) (if x then REof else RTimeout) c = [])
-          by (intros [|]; reflexivity).
-        destruct sg as [i|]; [destruct (Nat.eqb i c') eqn:Ei|]; rewrite ?Hq; cbn [app]; try (symmetry; exact H).
-        rewrite conn_at_mk. unfold conn_at at 3. rewrite skip_buf_upd. cbn [step_read].
-        destruct (Nat.eqb c' c) eqn:E.
-        -- apply Nat.eqb_eq in E; subst c'. unfold conn_at in *. rewrite zfirstn_skipn. symmetry; exact H.
-        -- cbn [app]. symmetry; exact H.
+        destruct (recv_msg wire s m) as [[[s1 r1] fs] sg].
+        pose proof (vc_read_buf s1 c' n c) as H2. destruct (vc_read s1 c' n) as [s' r].
+        rewrite step_read_park, <- H2. symmetry; exact H.
     + destruct (vc_closed (conn_at s c'));
         destruct (vc_read s c' n) as [s1 r1]; destruct (recv_msg wire s1 m) as [[[s' r] fs] sg]; exact Himm.
   - destruct (s_alive s); cbn [step_read]; rewrite app_nil_r; reflexivity.
@@ -793,12 +879,10 @@ Proof.
     + destruct (vc_closed (conn_at s c')) eqn:Ec.
       * destruct (vc_read s c' n) as [s1 r1]. destruct (recv_msg wire s1 m) as [[[s' r] fs] sg]. exact Himm.
       * clear Himm. pose proof (recv_msg_closed wire s m c Hr Hc) as H.
-        destruct (recv_msg wire s m) as [[[s' r] fs] sg].
-        destruct sg as [i|]; [destruct (Nat.eqb i c') eqn:Ei|]; cbn [fst]; try exact H.
-        destruct H as [H Hl]. split; cbn [s_conns]; [|rewrite upd_length; exact Hl].
-        rewrite conn_at_mk, nth_upd.
-        destruct (Nat.eqb c' c && Nat.ltb c (length (s_conns s'))) eqn:E; [|exact H].
-        apply andb_true_iff in E. destruct E as [E _]. apply Nat.eqb_eq in E. subst c'. exact H.
+        destruct (recv_msg wire s m) as [[[s1 r1] fs] sg].
+        destruct H as [H Hl]. pose proof (vc_read_closed s1 c' n c H) as H2.
+        destruct (vc_read s1 c' n) as [s' r]. cbn [fst] in *.
+        eapply still_closed_trans; [split; [exact H|exact Hl]|exact H2].
     + destruct (vc_closed (conn_at s c'));
         destruct (vc_read s c' n) as [s1 r1]; destruct (recv_msg wire s1 m) as [[[s' r] fs] sg]; exact Himm.
   - destruct (s_alive s); exact Hsame.
@@ -820,45 +904,17 @@ Proof.
 Qed.
 
 (* ================================================================== *)
-(* D. what does not hold of the code as it is *)
-Lemma eqb_bytes_refl b : eqb_bytes b b = true.
-Proof. now apply eqb_bytes_true. Qed.
-
-Lemma addr_eqb_refl a : addr_eqb a a = true.
-Proof. destruct a; cbn [addr_eqb]; rewrite ?eqb_bytes_refl, ?Z.eqb_refl; reflexivity. Qed.
-
-Lemma msg_eqb_refl m : msg_eqb m m = true.
-Proof.
-  destruct m; cbn [msg_eqb]; rewrite ?addr_eqb_refl, ?eqb_bytes_refl, ?Z.eqb_refl; try reflexivity.
-  induction addrs as [|a l IH]; cbn [list_eqb]; [reflexivity|]. now rewrite addr_eqb_refl, IH.
-Qed.
-
-Lemma not_transported m : omsg_eqb (transport m) (Some m) = false -> transport m <> Some m.
-Proof. intros H E. rewrite E in H. cbn [omsg_eqb] in H. rewrite msg_eqb_refl in H. discriminate. Qed.
-
-Definition fit_witness : msg :=
-  MData (ATcp [192;0;2;1]%N 80) (ATcp [10;0;0;7]%N 40000) (repeat 7%N (N.to_nat 4076)).
+(* D. witnesses for the hypotheses of the round trip *)
 Definition large_witness : msg :=
-  MData (ATcp [192;0;2;1]%N 80) (ATcp [10;0;0;7]%N 40000) (repeat 7%N (N.to_nat 4077)).
+  MData (ATcp [192;0;2;1]%N 80) (ATcp [32;1;13;184;0;0;0;0;0;0;0;0;0;0;0;1]%N 65535) (repeat 7%N (N.to_nat 65000)).
 Definition hs_witness : msg :=
-  MHandshake 1 [49;46;48]%N [97;98;99;100;101;102;48]%N [97;98;99;100;101;102;48;49]%N [116;111;107]%N.
+  MHandshake 1 [49;46;48]%N [97;98;99;100;101;102;48]%N [97;98;99;100;101;102;48;49]%N (repeat 116%N (N.to_nat 4090)).
 
-Lemma wf_fit_witness : wf_msg fit_witness /\ is_handshake fit_witness = false /\ zlen (encode_msg fit_witness) = BUFSZ.
+Lemma large_witness_ok : vd_msg large_witness /\ zlen (encode_msg large_witness) = 65032.
 Proof. repeat split; vm_compute; (reflexivity || discriminate). Qed.
 
-(* one byte more than the bufio buffer: the last payload byte is lost *)
-Lemma roundtrip_large_refuted :
-  exists m, wf_msg m /\ is_handshake m = false /\ zlen (encode_msg m) = BUFSZ + 1 /\ transport m <> Some m.
-Proof.
-  exists large_witness. repeat split; try (vm_compute; (reflexivity || discriminate)).
-Qed.
-
-(* Handshake.MarshalBinary without Flush: nothing is emitted, the zero handshake comes back *)
-Lemma handshake_marshal_refuted :
-  exists m, wf_msg m /\ encode_msg m = [] /\ transport m = Some (MHandshake 0 [] [] [] []) /\ transport m <> Some m.
-Proof.
-  exists hs_witness. repeat split; try (vm_compute; (reflexivity || discriminate)).
-Qed.
+Lemma hs_witness_ok : vd_msg hs_witness /\ zlen (encode_msg hs_witness) = 4118.
+Proof. repeat split; vm_compute; (reflexivity || discriminate). Qed.
 
 (* ================================================================== *)
 (* E. one connection and its reader, step by step *)
@@ -868,7 +924,9 @@ Proof.
   destruct e as [p| |n]; cbn [cstep].
   - destruct (c_closed s) eqn:E; [exact E|reflexivity].
   - reflexivity.
-  - destruct (c_pc s); try reflexivity. destruct (c_buf s); reflexivity.
+  - destruct (c_pc s); try reflexivity.
+    + destruct (c_buf s); reflexivity.
+    + destruct (c_tok s); [reflexivity|]. destruct (c_closed s) eqn:E; [reflexivity|exact E].
 Qed.
 
 Lemma cstep_inv s e :
@@ -881,12 +939,11 @@ Proof.
   - rewrite app_nil_r. destruct (c_pc s); cbn [c_got c_buf]; try reflexivity.
     + destruct (c_buf s) as [|b l] eqn:E; cbn [c_got c_buf]; [reflexivity|].
       rewrite <- app_assoc. f_equal. apply zfirstn_skipn.
-    + rewrite <- app_assoc. f_equal. apply zfirstn_skipn.
+    + destruct (c_tok s); [reflexivity|]. destruct (c_closed s); reflexivity.
 Qed.
 
-(* for EVERY schedule of receives, close and reader steps: bytes read ++ bytes buffered
-   = the accepted payloads, in order (the reader never gets ahead, nothing is duplicated
-   or reordered) *)
+(* for EVERY schedule of receives, Close and reader steps: bytes read ++ bytes buffered
+   = the accepted payloads, in order (nothing duplicated, reordered or invented) *)
 Lemma crun_inv evs : forall s,
   c_got (crun s evs) ++ c_buf (crun s evs) = c_got s ++ c_buf s ++ accepted (c_closed s) evs.
 Proof.
@@ -899,54 +956,63 @@ Proof.
     + rewrite app_nil_r, <- app_assoc. reflexivity.
 Qed.
 
-Lemma reader_never_ahead evs :
-  exists rest, accepted false evs = c_got (crun cst0 evs) ++ rest.
-Proof. exists (c_buf (crun cst0 evs)). pose proof (crun_inv evs cst0) as H. cbn in H. now symmetry. Qed.
+(* Read returns io.EOF only when the connection is closed and the buffer is empty *)
+Definition eof_ok (s : cst) : Prop := c_pc s = PDone -> c_buf s = [] /\ c_closed s = true.
 
-(* a receive in the window followed by Close: Read returns EOF, three bytes are never delivered *)
-Lemma lost_at_close :
-  exists evs, let s := crun cst0 evs in
-    c_pc s = PDone /\ c_got s = [] /\ accepted false evs = [1;2;3]%N.
-Proof. exists [EReader 512; ERecv [1;2;3]%N; EClose; EReader 512]. vm_compute. auto. Qed.
-
-(* outside that window every accepted byte is delivered before Read returns EOF *)
-Definition quiet (s : cst) : Prop :=
-  (c_pc s = PChecked \/ c_pc s = PParked -> c_buf s = []) /\
-  (c_pc s = PDone -> c_buf s = [] /\ c_closed s = true).
-
-Lemma cstep_quiet s e :
-  quiet s -> (match e, c_pc s with ERecv _, PChecked => False | _, _ => True end) -> quiet (cstep s e).
+Lemma cstep_eof_ok s e : eof_ok s -> eof_ok (cstep s e).
 Proof.
-  unfold quiet. intros [Q1 Q2] Hw. destruct e as [p| |n]; cbn [cstep].
-  - destruct (c_closed s) eqn:Ec; [split; [exact Q1|intros H; split; [apply Q2, H|exact Ec]]|].
-    destruct (c_pc s) eqn:Ep; try contradiction; cbn [c_pc c_buf c_closed]; split; intros H;
-      try (destruct H as [H|H]; discriminate H); try discriminate H.
-    destruct (Q2 eq_refl) as [_ H2]. discriminate H2.
-  - cbn [c_pc c_buf c_closed]. split; [exact Q1|]. intros H. split; [apply Q2, H|reflexivity].
+  unfold eof_ok. intros Q. destruct e as [p| |n]; cbn [cstep].
+  - destruct (c_closed s) eqn:Ec; [exact Q|]. cbn [c_pc c_buf c_closed]. intros H.
+    destruct (Q H) as [_ H2]. discriminate H2.
+  - cbn [c_pc c_buf c_closed]. intros H. split; [apply Q, H|reflexivity].
   - destruct (c_pc s) eqn:Ep.
-    + destruct (c_buf s) eqn:Eb; cbn [c_pc c_buf c_closed]; split; intros H;
-        try (destruct H as [H|H]; discriminate H); try discriminate H; reflexivity.
-    + assert (Hb : c_buf s = []) by (apply Q1; auto).
-      cbn [c_pc c_buf c_closed]. split; intros H; [exact Hb|].
+    + destruct (c_buf s) eqn:Eb; cbn [c_pc c_buf c_closed]; intros H; [|discriminate H].
       destruct (c_closed s); [auto|discriminate H].
-    + assert (Hb : c_buf s = []) by (apply Q1; auto).
-      cbn [c_pc c_buf c_closed]. split; intros H; [exact Hb|].
-      destruct (c_closed s); [auto|discriminate H].
-    + cbn [c_pc c_buf c_closed]. split; intros H; [destruct H as [H|H]; discriminate H|discriminate H].
-    + rewrite Ep. split; assumption.
+    + destruct (c_tok s); [cbn [c_pc]; intros H; discriminate H|].
+      destruct (c_closed s); [cbn [c_pc]; intros H; discriminate H|]. rewrite Ep. intros H; discriminate H.
+    + rewrite Ep. exact Q.
 Qed.
 
-Lemma crun_quiet evs : forall s, quiet s -> window_free s evs -> quiet (crun s evs).
+Lemma crun_eof_ok evs : forall s, eof_ok s -> eof_ok (crun s evs).
 Proof.
-  induction evs as [|e evs IH]; intros s Q W; cbn [crun fold_left]; [exact Q|].
-  destruct W as [W1 W2]. apply IH; [apply cstep_quiet; assumption|exact W2].
+  induction evs as [|e evs IH]; intros s Q; cbn [crun fold_left]; [exact Q|].
+  apply IH, cstep_eof_ok, Q.
 Qed.
 
-Lemma complete_outside_window evs :
-  window_free cst0 evs -> c_pc (crun cst0 evs) = PDone -> c_got (crun cst0 evs) = accepted false evs.
+(* for EVERY schedule: when Read returns EOF the service has read every accepted byte *)
+Lemma all_delivered_before_eof evs :
+  c_pc (crun cst0 evs) = PDone -> c_got (crun cst0 evs) = accepted false evs.
 Proof.
-  intros W D. pose proof (crun_inv evs cst0) as H. cbn [cst0 c_got c_buf c_closed app] in H.
-  assert (Q : quiet cst0) by (split; cbn; intros H0; [reflexivity|discriminate]).
-  destruct (crun_quiet evs cst0 Q W) as [_ Q2]. destruct (Q2 D) as [Hb _].
-  rewrite Hb, app_nil_r in H. exact H.
+  intros D. pose proof (crun_inv evs cst0) as H. cbn [cst0 c_got c_buf c_closed app] in H.
+  assert (Q : eof_ok cst0) by (intros H0; discriminate H0).
+  destruct (crun_eof_ok evs cst0 Q D) as [Hb _]. rewrite Hb, app_nil_r in H. exact H.
 Qed.
+
+(* no lost wake-up: whenever the reader waits while bytes are buffered, a wake-up token
+   is pending (so its next step lets it through) *)
+Definition wake_ok (s : cst) : Prop := c_pc s = PWait -> c_buf s <> [] -> c_tok s = true.
+
+Lemma cstep_wake_ok s e : wake_ok s -> wake_ok (cstep s e).
+Proof.
+  unfold wake_ok. intros Q. destruct e as [p| |n]; cbn [cstep].
+  - destruct (c_closed s); [exact Q|]. cbn [c_tok]. reflexivity.
+  - cbn [c_pc c_buf c_tok]. exact Q.
+  - destruct (c_pc s) eqn:Ep.
+    + destruct (c_buf s) eqn:Eb; cbn [c_pc c_buf c_tok]; intros H H2; [now contradiction H2|discriminate H].
+    + destruct (c_tok s) eqn:Et; [cbn [c_pc]; intros H; discriminate H|].
+      destruct (c_closed s); [cbn [c_pc]; intros H; discriminate H|].
+      rewrite Ep, Et. exact Q.
+    + rewrite Ep. intros H; discriminate H.
+Qed.
+
+Lemma no_lost_wakeup evs : wake_ok (crun cst0 evs).
+Proof.
+  assert (G : forall s, wake_ok s -> wake_ok (crun s evs)).
+  { induction evs as [|e evs IH]; intros s Q; cbn [crun fold_left]; [exact Q|]. apply IH, cstep_wake_ok, Q. }
+  apply G. intros H; discriminate H.
+Qed.
+
+(* a waiting reader on a closed connection is let through as well *)
+Lemma closed_lets_reader_through s n :
+  c_pc s = PWait -> c_closed s = true -> c_pc (cstep s (EReader n)) = PIdle.
+Proof. intros Hp Hc. cbn [cstep]. rewrite Hp, Hc. destruct (c_tok s); reflexivity. Qed.
